@@ -37,6 +37,11 @@ def _worker(args):
     t0 = time.time()
     try:
         h = mod.build(spec)
+        rt = getattr(mod, 'REQUIRED_TRIGGERS', {})
+        rt = tuple(rt.get(os.environ.get('VERIF_TIER_EFFECTIVE', 'quick'), rt.get('quick', ())))
+        for hh in (getattr(h, 'harnesses', None) or [h]):
+            if not getattr(hh, 'required_triggers', ()):
+                hh.required_triggers = rt
         if hasattr(h, 'process'):
             R = h.process(want_functions=want_functions)
         else:
@@ -86,6 +91,7 @@ def main(argv=None):
     if a.replay:
         return do_replay(mod, pid, a.replay)
 
+    os.environ['VERIF_TIER_EFFECTIVE'] = tier
     specs = mod.specs(tier, seed)
     if a.only:
         specs = [s for s in specs if a.only in repr(s)]
